@@ -21,6 +21,8 @@ type Mode struct {
 	RetryDispatches bool
 	// InitialLastEventID: the last event ID buffer at the start (a reconnecting Connection).
 	InitialLastEventID string
+	// NoFlushAtEnd: the stream did not end cleanly (read error): a pending event is not dispatched at the end.
+	NoFlushAtEnd bool
 }
 
 type Result struct {
@@ -140,7 +142,7 @@ func Interpret(stream string, m Mode) Result {
 		}
 	}
 	res.LastEventID = lastID
-	if !m.Strict && !res.UnterminatedTail {
+	if !m.Strict && !res.UnterminatedTail && !m.NoFlushAtEnd {
 		// adaptation 3: a pending event whose last line was terminated is dispatched at a clean end of stream
 		dispatch(len(stream))
 	}
